@@ -6,6 +6,46 @@ import os
 import vlib
 
 
+def render_path(cmds, variant):
+    """SVG path data text for a command list; variants: separators, implicit repetition of the command letter (a moveto is followed by
+    implicit linetos of the same case), no space after the letter, leading whitespace"""
+    sep = [" ", ",", " , ", " "][variant % 4]
+    glue = ["", " "][(variant // 4) % 2]
+    implicit = (variant // 8) % 2
+    out, prev = [], None
+    for k in cmds:
+        c, a = k["c"], list(k["a"])
+        nums = sep.join(str(v) for v in a)
+        same = prev is not None and (c == prev or (prev == "M" and c == "L") or (prev == "m" and c == "l"))
+        if implicit and same and a:
+            out.append(nums)
+        else:
+            out.append(c + (glue if a else "") + nums)
+        prev = c
+    return ("  " if variant % 3 == 0 else "") + " ".join(out)
+
+
+def path_stage(ctx, pu):
+    """PathData.tla replayed into pathdata_first_point / pathdata_last_point"""
+    dump = os.path.join(ctx.workdir, "extra_path", "states")
+    ctx.run_tlc("extended.path_data", "PathData", "PathData_%s.cfg" % ctx.tier, dump=dump)
+    obs, n = [], 0
+    for st in vlib.read_dump(dump + ".dump"):
+        n += 1
+        for variant in ((n * 5) % 16, (n * 5 + 7) % 16):
+            text = render_path(st["cmds"], variant)
+            try:
+                f, l = pu.pathdata_first_point(text), pu.pathdata_last_point(text)
+                ok = f is not None and l is not None and all(math.isclose(x, y, abs_tol=1e-12) for x, y in zip(list(f) + list(l), list(st["first"]) + list(st["cur"])))
+                got = [f, l]
+            except Exception as ex:  # pylint: disable=broad-except
+                ok, got = False, type(ex).__name__ + ": " + str(ex)[:40]
+            if not ok and len(obs) < 20:
+                obs.append({"helper": "pathdata_first_point/last_point", "path": text, "model": [list(st["first"]), list(st["cur"])], "real": got})
+    os.remove(dump + ".dump")
+    return obs, n
+
+
 def run_stage(ctx):
     from plotink import plot_utils as pu
     dump = os.path.join(ctx.workdir, "extra", "states")
@@ -41,6 +81,9 @@ def run_stage(ctx):
         x, y = pu.position_scale(2.0, -3.0, code)
         if not (math.isclose(x, 2.0 * f) and math.isclose(y, -3.0 * f)):
             obs.append({"helper": "position_scale", "in": [2.0, -3.0, code], "real": [x, y]})
+    pobs, pn = path_stage(ctx, pu)
+    obs += pobs
+    ctx.stage("extended.path_data.G", kind="spec->code (outside the listed properties)", vectors=pn, differences=len(pobs))
     ctx.stage("extended.plot_misc.G", kind="spec->code (outside the listed properties)", vectors=n, differences=len(obs))
     ctx.notes["extended_observations"] = obs[:10]
     for o in obs[:5]:
